@@ -6,6 +6,7 @@ import (
 	"net"
 	"runtime"
 	"sort"
+	"strings"
 	"sync"
 	"sync/atomic"
 	"syscall"
@@ -113,7 +114,7 @@ func runWpCase(c WpCase) (string, map[string]int) {
 		case "put":
 			f := pick(op.C)
 			f.pooledB = op.B
-			ok := pool.Put(fmt.Sprintf("b%d", op.B), f)
+			ok := pool.Put(wpKey(op.B), f)
 			ops = append(ops, fmt.Sprintf("WPut %d %d", op.B, f.id))
 			obs = append(obs, B01(ok))
 			stats["put"]++
@@ -134,7 +135,7 @@ func runWpCase(c WpCase) (string, map[string]int) {
 			var wg sync.WaitGroup
 			for i := range fs {
 				wg.Add(1)
-				go func(i int) { defer wg.Done(); <-start; oks[i] = pool.Put(fmt.Sprintf("b%d", op.B), fs[i]) }(i)
+				go func(i int) { defer wg.Done(); <-start; oks[i] = pool.Put(wpKey(op.B), fs[i]) }(i)
 			}
 			synctest.Wait()
 			close(start)
@@ -145,7 +146,7 @@ func runWpCase(c WpCase) (string, map[string]int) {
 			}
 			stats["cput"]++
 		case "get":
-			got := pool.Get(fmt.Sprintf("b%d", op.B))
+			got := pool.Get(wpKey(op.B))
 			ops = append(ops, fmt.Sprintf("WGet %d", op.B))
 			id := -1
 			if got != nil {
@@ -157,12 +158,12 @@ func runWpCase(c WpCase) (string, map[string]int) {
 			stats["get"]++
 		case "close":
 			f := pick(op.C)
-			pool.Close(fmt.Sprintf("b%d", op.B), f)
+			pool.Close(wpKey(op.B), f)
 			ops = append(ops, fmt.Sprintf("WClose %d %d", op.B, f.id))
 			obs = append(obs, "0")
 			stats["close"]++
 		case "stats":
-			i, a := pool.Stats(fmt.Sprintf("b%d", op.B))
+			i, a := pool.Stats(wpKey(op.B))
 			ops = append(ops, fmt.Sprintf("WStats %d", op.B))
 			obs = append(obs, ZI(i*1000+a))
 		case "shutdown":
@@ -190,9 +191,9 @@ func runWpCase(c WpCase) (string, map[string]int) {
 					pool.Shutdown()
 					gotID = -4
 				} else if op.C == 1 {
-					putOK = pool.Put(fmt.Sprintf("b%d", op.B), putConn)
+					putOK = pool.Put(wpKey(op.B), putConn)
 					gotID = -3
-				} else if got := pool.Get(fmt.Sprintf("b%d", op.B)); got != nil {
+				} else if got := pool.Get(wpKey(op.B)); got != nil {
 					gotID = got.(*fakeConn).id
 				} else {
 					gotID = -1
@@ -263,6 +264,17 @@ func runWpCase(c WpCase) (string, map[string]int) {
 	sort.Ints(closed)
 	sort.Ints(held)
 	return fmt.Sprintf("mkWpCase %d %s %s %s %s %s", c.MaxIdle, Z(c.Timeout), List(ops), List(obs), IList(closed), IList(held)), stats
+}
+
+// wpKey: the pool's key of backend b.  Backends 100 and up (the ones whose first connections are returned by several callers at
+// once) have very long names: looking such a key up takes long enough for the callers to really overlap inside Put.
+var wpLongTail = strings.Repeat("k", 1<<20)
+
+func wpKey(b int) string {
+	if b >= 100 {
+		return fmt.Sprintf("b%d-", b) + wpLongTail
+	}
+	return fmt.Sprintf("b%d", b)
 }
 
 func genWpCase(g *Rng) WpCase {
